@@ -1539,6 +1539,7 @@ pub fn run(seed_rng: &mut Rng, n_histories: usize, replay: Option<&Value>) -> St
         };
         for step in 0..gen.len {
             let op = gen.next(&ex);
+            kvh::panicrec::set_input(json!({"ops_prefix": ex.prefix_json(), "next_op": op.to_json()}).to_string());
             ex.apply(step, &op, &mut acc);
             if ex.dead {
                 break;
